@@ -332,25 +332,29 @@ Section Wf.
   (* ---------- the new shard group ---------- *)
 
   Lemma new_group_wf d r t :
-    wfrp r = true -> (min_i64 + bnd <= t)%Z -> (t <= max_i64)%Z -> wf_group (new_group d r t) = true.
+    wfrp r = true -> in_i64 t = true -> wf_group (new_group d r t) = true.
   Proof.
-    intros Hr Ht1 Ht2. unfold wf_policy in Hr. repeat (apply andb_true_iff in Hr; destruct Hr as [Hr ?]).
+    intros Hr Ht. unfold wf_policy in Hr. repeat (apply andb_true_iff in Hr; destruct Hr as [Hr ?]).
     assert (Hpos : (0 < rp_sgdur r)%Z) by lia. assert (Hle : (rp_sgdur r <= bnd)%Z) by lia.
     unfold new_group, wf_group. cbn [g_start g_end g_trunc].
     pose proof (time_truncate_bounds t (rp_sgdur r) Hpos) as [B1 B2].
-    set (s0 := time_truncate t (rp_sgdur r)) in *.
-    set (e0 := if (c06_max_nano_time <? s0 + rp_sgdur r)%Z then (c06_max_nano_time + 1)%Z else (s0 + rp_sgdur r)%Z).
+    set (s00 := time_truncate t (rp_sgdur r)) in *.
+    set (e0 := if (c06_max_nano_time <? s00 + rp_sgdur r)%Z then (c06_max_nano_time + 1)%Z else (s00 + rp_sgdur r)%Z).
+    set (s0 := if (s00 <? min_unix_nano)%Z then min_unix_nano else s00).
+    unfold in_i64, min_i64, max_i64 in Ht.
     assert (He0 : (t <= e0 <= max_i64)%Z).
-    { unfold e0. destruct (c06_max_nano_time <? s0 + rp_sgdur r)%Z eqn:E; unfold c06_max_nano_time, max_i64 in *; lia. }
+    { unfold e0. destruct (c06_max_nano_time <? s00 + rp_sgdur r)%Z eqn:E; unfold c06_max_nano_time, max_i64 in *; lia. }
+    assert (Hs0 : (min_i64 <= s0 <= t)%Z).
+    { unfold s0. destruct (s00 <? min_unix_nano)%Z eqn:E; unfold min_unix_nano, c06_max_nano_time, min_i64 in *; lia. }
     destruct (clip_range_bounds t (rp_groups r) s0 e0) as [[A1 A2] [A3 A4]]; try lia.
     unfold in_i64, min_i64, max_i64 in *. rewrite andb_true_r. lia.
   Qed.
 
   Lemma create_shard_group_wf d dbn pol t d' :
-    wfd d = true -> (min_i64 + bnd <= t)%Z -> (t <= max_i64)%Z ->
+    wfd d = true -> in_i64 t = true ->
     create_shard_group d dbn pol t = Ok d' -> wfd d' = true.
   Proof.
-    intros H Ht1 Ht2. unfold create_shard_group.
+    intros H Ht. unfold create_shard_group.
     destruct (d_nodes d); [intros E; inversion E; subst; auto|].
     destruct (find_db d dbn) as [x|] eqn:Ex; [|discriminate].
     destruct (find_rp x pol) as [r|] eqn:Er; [|discriminate].
@@ -478,7 +482,7 @@ Section Wf.
     - inversion E; subst. unfold drop_rp. apply wf_upd_db; auto. intros x Hx.
       unfold wf_database in *; cbn. apply fb_remove_first; auto.
     - apply andb_true_iff in Hc. destruct Hc as [Hr Hs]. eapply update_rp_wf; eauto.
-    - apply andb_true_iff in Hc. destruct Hc as [H1 H2]. apply (create_shard_group_wf d db pol t d' H); [lia|lia|exact E].
+    - apply (create_shard_group_wf d db pol t d' H Hc E).
     - eapply delete_shard_group_wf; eauto.
     - (* CreateContinuousQuery *)
       unfold create_cq in E. destruct (find_db d db) as [x|]; [|discriminate].
@@ -553,5 +557,5 @@ Proof. unfold c06_sgd_long, c06_sgd_mid, c06_sgd_short, max_i64. lia. Qed.
 Lemma cmd_ok_wf bnd c : (0 <= bnd)%Z -> cmd_ok bnd c = true -> cmd_wf c.
 Proof.
   intros Hb. destruct c; try exact (fun _ => I). cbn [cmd_ok cmd_wf]. intros H.
-  apply andb_true_iff in H. destruct H as [H1 H2]. unfold c06_max_nano_time, min_i64, max_i64 in *. lia.
+  unfold in_i64, c06_max_nano_time, min_i64, max_i64 in *. lia.
 Qed.
